@@ -4,7 +4,6 @@ counter lies in the region of the code that owns the run right of that queue; an
 a holder is in one of the three states in which only the holder may touch its jobs.
 -/
 import DesyncModel.Model
-import DesyncModel.Tables
 import DesyncModel.Lemmas
 import DesyncModel.Setters
 
